@@ -99,6 +99,14 @@ INFO = {
  'C16-m6': ("CombineContext folds a deadline-bearing other into WithDeadline instead of registering a callback", 'an other that carries a deadline and is cancelled early (defer cancel / cancelled parent): the result stays live until the deadline'),
  'C18-m5': ("the per-iteration cancellation check returns context.Cause(ctx) instead of ctx.Err()", 'a context cancelled with a custom cause (WithCancelCause / WithTimeoutCause, or a child of one): the cause is returned instead of the context\'s error'),
  'C18-m6': ("a fail-fast before the wait: gives up with DeadlineExceeded when the drawn delay exceeds the time left", 'a context that carries a deadline and a drawn delay longer than the time left: returns while the context is not cancelled, skipping calls that would still have been made'),
+ 'C08-m5': ("two cooperating edits in Send's arming loop: the state is re-read only after a failed CAS, and the invariant check also rejects zero receivers", 'the sole receiver deregisters between Send reading the state and arming it: Send panics although everybody obeyed the contract'),
+ 'C08-m6': ("Send's receiver bound rewritten as an overflow check, off by one", 'Add(MaxInt32) then Add(1) (which panics) then Send: the poisoned state hi=lo=2^31 is accepted and Send blocks delivering to 2^31 receivers'),
+ 'C11-m5': ("Buffer.Put adopts the caller's variadic slice when the buffer is drained", 'a spread Put(ctx, batch...) on a drained buffer by a producer that reuses batch afterwards: the buffer shares the backing array (unsynchronised read in Buffer.get vs the producer write)'),
+ 'C11-m6': ("two cooperating lock-narrowing edits in Exclusive.call (item fields written under the item mutex only; the end-of-run count check under the root mutex only)", 'a runner finishing while a second call on the key has fetched the item and is about to register: count++ and the count read share no lock (race detector)'),
+ 'C19-m5': ("signature cache keyed by reflect.Type.String()", 'a Call on signature A, then one on a different signature B that prints identically (homonymous types): B is validated against A (spurious error, or reflect panic on a wrongly typed argument/target)'),
+ 'C19-m6': ("CallArgs returns early for an empty argument list when the function is variadic", 'mandatory parameters plus a variadic tail called with CallArgs(): reflect panics with too few input arguments'),
+ 'C20-m5': ("the entry guard selects on a hoisted ctx.Done() instead of checking ctx.Err()", 'a context already cancelled by Err() whose Done() never closes (the shape the repo example uses): the channel yields a value and a producer is started'),
+ 'C20-m6': ("the final value is handed over by a blocking send with the ticker stopped", 'a context that reports cancellation through Err() only, the count-th value due while the buffer is full, then cancellation: the producer never re-checks and never exits unless drained'),
 
 }
 
